@@ -14,11 +14,21 @@
 //!                flow_sequence_entry_mapping_key consumed the "]" of "[ ? ]" as the end of the empty key, so the
 //!                text was accepted as d nested sequences at scanner flow level 1; now the first "[ ? ]" is a
 //!                complete document and the "," / "]" behind it is an error value at every depth)
-//!          colons "[" + " :" per level + "]"                (flow-limit bypass: fetch_value pushes a synthetic
-//!                FlowMappingStart for every bare ':' inside a flow sequence: d nested mappings at scanner flow
-//!                level 1; the parse ends in an error, but only at the closing "]")
-//!          colonsok "[" + " :" per level + " " + "}" per level + "]"   (the same bypass, ACCEPTED: the d real '}'
-//!                close the d synthetic mappings; the first of them lowers the scanner's flow level to 0)
+//!          colons "[" + " :" per level + "]"                (REGRESSION scenario: before 597a354 fetch_value pushed
+//!                a synthetic FlowMappingStart for every bare ':' inside a flow sequence: d nested mappings at
+//!                scanner flow level 1, the parse error only arrived at the closing "]"; now only the first ':'
+//!                of an entry starts the single-pair mapping and the second ':' is an error value)
+//!          colonsok "[" + " :" per level + " " + "}" per level + "]"   (REGRESSION scenario: the same text closed
+//!                by d '}' was ACCEPTED before 597a354; now an error value: at the second ':' for d >= 2, at the
+//!                '}' for d = 1 (88700d3))
+//!          cbrace "[ : } , " per level, then d closing "]"  (REGRESSION scenario: before 88700d3 the '}' ended the
+//!                implicit mapping of the pair AND lowered the scanner's flow level although the parser stayed in
+//!                the sequence: d nested sequences at scanner flow level 1, accepted; now the first '}' is the
+//!                scan error "while parsing a flow sequence, expected ',' or ']'")
+//!          alias  "- &a0 [x]" then "- &a<i> [*a<i-1>]" per level   (ALIAS CHAIN: the events nest only 2 deep — no nesting
+//!                limit applies — but the loader inserts a CLONE of the anchored node for every alias, so element i of the
+//!                loaded sequence is a tree i+1 deep and the whole tree holds ~d^2/2 nodes: memory is quadratic in d, and
+//!                Clone (during load), Drop and the emitter recurse d deep)
 //!   api    iter   Parser::new_from_str(..) drained as an iterator                (pull interface)
 //!          load   Parser::load into a receiver that only counts                  (push interface)
 //!          drop   Yaml::load_from_str, then drop the documents
@@ -110,6 +120,25 @@ fn build(shape: &str, d: usize) -> Option<String> {
             s.reserve(9 * d + 8);
             for i in 0..d {
                 s.push_str(if i + 1 < d { "[ ? ] , " } else { "[ ? ] " });
+            }
+            for _ in 0..d {
+                s.push(']');
+            }
+        }
+        "alias" => {
+            s.reserve(18 * d + 16);
+            for i in 0..d {
+                if i == 0 {
+                    s.push_str("- &a0 [x]\n");
+                } else {
+                    s.push_str(&format!("- &a{} [*a{}]\n", i, i - 1));
+                }
+            }
+        }
+        "cbrace" => {
+            s.reserve(9 * d + 8);
+            for i in 0..d {
+                s.push_str(if i + 1 < d { "[ : } , " } else { "[ : } " });
             }
             for _ in 0..d {
                 s.push(']');
@@ -278,7 +307,7 @@ fn scenario(api: &str, src: &str) -> String {
 fn main() {
     let a: Vec<String> = std::env::args().collect();
     if a.len() != 4 {
-        println!("USAGE hx_c11 <seq|map|qkey|alt|fseq|fmap|mix|qflow|colons|colonsok> <depth> <iter|load|drop|emit|pdrop|pemit>");
+        println!("USAGE hx_c11 <seq|map|qkey|alt|fseq|fmap|mix|qflow|colons|colonsok|cbrace|alias> <depth> <iter|load|drop|emit|pdrop|pemit>");
         std::process::exit(2);
     }
     let depth: usize = match a[2].parse() {
